@@ -200,6 +200,25 @@ func jobC14(c *rt.Ctx) {
 				map[string]interface{}{"stack_growth_bytes": depth, "delivered": ref.Hex(seed), "observed_key": ref.Hex(priv)})
 		}
 	}
+	// a reader whose dynamic value is a nil POINTER with a usable Read method is a reader like any other
+	// (only the untyped nil selects crypto/rand): its 32 bytes are the seed
+	c.Require("gen/typed-nil-reader")
+	if c.Take() {
+		c.Class("gen/typed-nil-reader")
+		c.Distinct("typed-nil", true)
+		var tn *nilSafeReader
+		pub, priv, err := GenerateKey(tn)
+		pub2, priv2, err2 := GenerateKey(tn)
+		c.Step(2)
+		seed := make([]byte, 32)
+		for i := range seed {
+			seed[i] = byte(i + 1)
+		}
+		want := stded.NewKeyFromSeed(seed)
+		if err != nil || err2 != nil || !bytes.Equal(priv, want) || !bytes.Equal(pub, want[32:]) || !bytes.Equal(priv2, want) || !bytes.Equal(pub2, want[32:]) {
+			c.Violation("C14 generate typed-nil-reader", fmt.Sprintf("GenerateKey with a reader that is a nil pointer with a working Read method: err=%v/%v, key %x, expected NewKeyFromSeed of the 32 bytes it delivers (%x)", err, err2, []byte(priv), []byte(want)), nil)
+		}
+	}
 	// results are the caller's to OVERWRITE: a key returned by NewKeyFromSeed / GenerateKey is changed in
 	// place (public half flipped; wiped to zeros; overwritten with another key), then the same seed - and
 	// the seed the mutated bytes now spell - is derived again: always NewKeyFromSeed's value for the seed
@@ -591,4 +610,14 @@ func (h *handoffReader) Read(p []byte) (int, error) {
 	n := <-done
 	h.off += n
 	return n, nil
+}
+
+// nilSafeReader: Read works on a nil receiver (delivers 1, 2, 3, ...).
+type nilSafeReader struct{ _ int }
+
+func (r *nilSafeReader) Read(p []byte) (int, error) {
+	for i := range p {
+		p[i] = byte(i + 1)
+	}
+	return len(p), nil
 }
